@@ -507,4 +507,34 @@ CaseRec ==
       cls |-> fn \o "-" \o mode.name \o (IF mode.consts THEN "+c" ELSE "")
                  \o (IF mode.uobj = (mode.name # "unitless") THEN "" ELSE "+nou") \o "-" \o RangeClass(fn, args) ]
 Emit == Done => PrintT(<<"CASE", ToJson(CaseRec)>>)
+
+(* Catalog of ARRAY-valued temperature inputs (one call, one warning for the whole call), derived *)
+(* from the documented ranges: every combination of "some element below the range", "elements     *)
+(* spread over the whole range" and "some element above the range".  WarnIffOutside for arrays:    *)
+(* a warning iff SOME element is outside (judged by PhysPropsTrace!ArrayWarnOK).  Temperatures in  *)
+(* hundredths of a kelvin.  Exported once, from the initial state.                                *)
+ArrayFns == {"water_density", "water_viscosity", "water_diffusion", "water_permittivity"}
+Hundredths(q) == (q[1] * 100) \div q[2]
+InsideGrid(f, n) == LET lo == Hundredths(TRange(f)[1])  hi == Hundredths(TRange(f)[2])
+                    IN  [i \in 1..n |-> lo + ((i - 1) * (hi - lo)) \div (n - 1)]
+Below(f) == <<Hundredths(TRange(f)[1]) - 1000>>
+Above(f) == <<Hundredths(TRange(f)[2]) + 100>>       \* 1 K above (the permittivity law has no real value far above its range at 1 bar)
+ArrayPatterns(f) ==
+    << [pat |-> "inside", Ts |-> InsideGrid(f, 6)],
+       [pat |-> "below+inside", Ts |-> Below(f) \o InsideGrid(f, 6)],
+       [pat |-> "inside+above", Ts |-> InsideGrid(f, 6) \o Above(f)],
+       [pat |-> "below+inside+above", Ts |-> Below(f) \o InsideGrid(f, 4) \o Above(f)],
+       [pat |-> "below+upper-half", Ts |-> Below(f) \o SubSeq(InsideGrid(f, 6), 4, 6)],
+       [pat |-> "lower-half+above", Ts |-> SubSeq(InsideGrid(f, 6), 1, 3) \o Above(f)],
+       [pat |-> "below-only", Ts |-> <<Hundredths(TRange(f)[1]) - 2000>> \o Below(f)],
+       [pat |-> "inside-fine", Ts |-> InsideGrid(f, 11)] >>
+SeriesCatalog ==
+    LET fs == <<"water_density", "water_viscosity", "water_diffusion", "water_permittivity", "water_permittivity">>
+        ps == <<QZero, QZero, QZero, QOne, <<1000, 1>> >>
+    IN  [k \in 1..(Len(fs) * 8) |->
+            LET i == ((k - 1) \div 8) + 1   j == ((k - 1) % 8) + 1 IN
+            [fn |-> fs[i], P |-> ps[i], pat |-> ArrayPatterns(fs[i])[j].pat, Ts |-> ArrayPatterns(fs[i])[j].Ts]]
+CatalogCase == [ in |-> [fn |-> "series-catalog", series |-> SeriesCatalog], exp |-> [n |-> Len(SeriesCatalog)],
+                 cls |-> "catalog" ]
+EmitCatalog == (stage = "idle" /\ ncalls = 0 /\ fn = "none") => PrintT(<<"CASE", ToJson(CatalogCase)>>)
 =============================================================================
